@@ -2,6 +2,7 @@
   TwProofs.C10 — string literals are HTML-escaped on output; raw() is the exact opt-out.
 -/
 import TwProofs.Lemmas.Escape
+import TwProofs.Lemmas.TextIf
 
 namespace Tw.C10
 open Tw
@@ -49,5 +50,26 @@ theorem print_string_exact (v : Bytes) : (Val.str v).toStr = v := by simp [Val.t
 
 example : literalValue (b "<b>&amp; \"q\" 'r' &#34;") = b "&lt;b&gt;&amp;amp; \"q\" 'r' &amp;#34;" := by decide
 example : htmlUnescape (literalValue (b "a<&>\"'&lt;&#39;é")) = b "a<&>\"'&lt;&#39;é" := by decide
+
+/-- **a string literal reaches the output HTML-escaped, from the source bytes on**: for either quote
+    character, any white space around the literal inside the braces, and every literal text without
+    that quote and without a backslash, the template `{{ "text" }}` — alone, or anywhere among text
+    runs, comments, `{{ name }}` blocks and `@if … @end` constructs, by `witems_render` — renders
+    `literalValue text`: no raw `<` or `>`, every `&` an entity, quotes as written, and unescaping
+    gives the literal back (`no_raw_angle`, `quotes_as_written`, `unescape_literal` above) -/
+theorem literal_prints_escaped_from_source (custom : List ((VType × Bytes) × Nat)) (g1 g2 c : Bytes) (q : Byte)
+    (hg1 : allWs g1) (hg2 : allWs g2) (hq : q = 34 ∨ q = 39) (hp : PlainStr q c)
+    (data : List (Bytes × GoVal)) (env : Env) (henv : envFromMap data = .ok env) :
+    evaluateStringPure custom ([123, 123] ++ g1 ++ (q :: (c ++ [q])) ++ g2 ++ [125, 125]) data = .ok (literalValue c) := by
+  have := witems_render custom [.lit g1 q c g2] ⟨hg1, hg2, hq, hp, trivial⟩ (by simp [wspec, evalFuel]) data env henv
+    (by simp [wspec, wbound])
+  simpa [witemsSrc, WItem.src, wspec, wrender] using this
+
+example : evaluateStringPure [] (b "{{ '<b>&amp;\"x\"</b>' }}") [] = .ok (b "&lt;b&gt;&amp;amp;\"x\"&lt;/b&gt;") := by
+  have h := literal_prints_escaped_from_source [] (b " ") (b " ") (b "<b>&amp;\"x\"</b>") 39 (by decide) (by decide) (Or.inr rfl) (by decide)
+    [] [[]] (by rfl)
+  have h2 : literalValue (b "<b>&amp;\"x\"</b>") = b "&lt;b&gt;&amp;amp;\"x\"&lt;/b&gt;" := by decide
+  rw [h2] at h
+  exact h
 
 end Tw.C10
